@@ -9,3 +9,52 @@ Open Scope string_scope. Open Scope list_scope.
 
 Lemma tie_chg_note : chg_notes = src_chg_note.
 Proof. reflexivity. Qed.
+
+(* T1c: the decisions of the recommendation pass as they read now - fault points of an entry, the never-add test, the version filter's skip conditions,
+   level thresholds, the change note, category and action order - translated from the current source and equal to what the model computes *)
+Definition action_text (a : action) : string := match a with Add => "add" | Del => "del" | Chg => "chg" end.
+Definition rlevel_text (l : rlevel) : string := match l with Critical => "critical" | Warning => "warning" | Informational => "informational" end.
+
+Lemma tie_rec_faults : forall e : desc,
+  faults_of e = src_rec_faults (Z.of_nat (List.length e)) (Z.of_nat (List.length (nth 1 e []))) (Z.of_nat (List.length (nth 2 e []))).
+Proof.
+  intros e. unfold faults_of, src_rec_faults. cbv zeta. rewrite !negb_involutive, !Z.gtb_ltb.
+  change (Z.pow 10 (2 - 1)) with 10%Z. change (Z.pow 10 (2 - 2)) with 1%Z.
+  destruct e as [|a [|b [|c r]]]; cbn [nth List.length]; try reflexivity.
+  - (* one component more than the versions *)
+    change (1 <? Z.of_nat 2)%Z with true. change (2 <? Z.of_nat 2)%Z with false. cbv iota.
+    destruct (0 <? Z.of_nat (List.length b))%Z eqn:E; [lia|apply Z.ltb_ge in E; lia].
+  - assert (H1: (1 <? Z.of_nat (S (S (S (List.length r)))))%Z = true) by (apply Z.ltb_lt; lia).
+    assert (H2: (2 <? Z.of_nat (S (S (S (List.length r)))))%Z = true) by (apply Z.ltb_lt; lia).
+    rewrite H1, H2. cbv iota.
+    destruct (0 <? Z.of_nat (List.length b))%Z eqn:E; destruct (0 <? Z.of_nat (List.length c))%Z eqn:F;
+      try apply Z.ltb_ge in E; try apply Z.ltb_ge in F; lia.
+Qed.
+Lemma tie_rec_skip_add : forall faults cat n empty_version,
+  ((0 <? faults)%Z || never_add cat n || empty_version) = src_rec_skip_add faults cat n empty_version.
+Proof.
+  intros. unfold src_rec_skip_add, never_add. rewrite Z.gtb_ltb.
+  destruct (0 <? faults)%Z; destruct (String.eqb cat "key"); destruct (String.eqb cat "kex"); destruct empty_version;
+    destruct (match index 0 "-cert-" n with Some _ => true | None => false end); destruct (starts_with "sk-" n);
+    destruct (starts_with "ext-info-" n); destruct (starts_with "kex-strict-" n); reflexivity.
+Qed.
+(* one token of the first-appeared string counts for the identified software unless one of the four `continue` conditions holds *)
+Lemma tie_rec_token : forall (s : software) for_server v cmp,
+  sw_available s (snd (fst (ssh_version v))) = (0 <=? cmp)%Z ->
+  (match ssh_version v with
+   | (prod, ver, cli) => negb (String.eqb ver "") && String.eqb prod (sw_product s) && negb (cli && for_server) && sw_available s ver
+   end) = negb (src_rec_token_skipped (fst (fst (ssh_version v))) (snd (fst (ssh_version v))) (snd (ssh_version v)) for_server true (sw_product s) cmp).
+Proof.
+  intros s fs v cmp H. destruct (ssh_version v) as [[prod ver] cli]. cbn [fst snd] in *. unfold src_rec_token_skipped. rewrite H.
+  destruct (String.eqb ver ""); destruct (String.eqb prod (sw_product s)); destruct cli; destruct fs; cbn [andb orb negb];
+    try reflexivity; destruct (0 <=? cmp)%Z eqn:E; destruct (cmp <? 0)%Z eqn:F; try reflexivity; lia.
+Qed.
+Lemma tie_rec_level : forall p, rlevel_text (level_of_points p) = src_rec_level p.
+Proof.
+  intros p. unfold level_of_points, src_rec_level. cbv zeta. rewrite !Z.geb_leb.
+  destruct (10 <=? p)%Z; [reflexivity|]. destruct (1 <=? p)%Z; reflexivity.
+Qed.
+Lemma tie_rec_notes : forall a, (match a with Chg => chg_notes | _ => "" end) = src_rec_notes (action_text a).
+Proof. intros [| |]; reflexivity. Qed.
+Lemma tie_rec_orders : map action_text [Del; Add; Chg] = src_rec_actions /\ ["kex"; "key"; "enc"; "mac"] = src_rec_categories.
+Proof. split; reflexivity. Qed.
